@@ -9,13 +9,14 @@ from .lib.mir import AnchorLost
 CONFIGS_QUICK = ["A"]
 CONFIGS_THOROUGH = ["A", "R", "ASYNCSTD", "SMOL", "NIO", "GLOMMIO", "NOAPI"]
 TECHNIQUE = "field-exhaustiveness of the reset functions against the ADT tables + event-order rules (dominance / reachability avoiding an event) on the session coroutine's built MIR"
-LEVEL_TEXT = ('Decides clauses C05-a/b: every field of Request (and of request Headers, Context, IndexMap, TupleMap) that holds per-request state is reassigned or '
-              'cleared by the corresponding clear(), the only exemptions being the audited connection-scoped ones, so a field added later without a reset fails the '
-              'rule; the whole reset is conditional only on `nothing was read`; in the session loop no path leads from one read to the next without clear(), the '
-              'router runs only on the Ok(Some) edge of read, every path from the router (or from a parse error) back to the loop head or out of the loop passes '
-              'Response::send, the close flag is read before the handler can touch the request, acted on after the send and true only on paths where the Connection '
-              'value compared equal to `close` (any other value keeps the session, so the requests that follow are answered), and nothing is spawned inside the loop '
-              '(one read->send chain per iteration, hence responses in request order). Decides these clauses, not non-observability for all request histories.')
+LEVEL_TEXT = ('Decides clauses C05-a/b: every field of Request (and of request Headers, Context, IndexMap, TupleMap) that holds per-request state is reassigned or cl'
+              'eared by the corresponding clear(), the only exemptions being the audited connection-scoped ones, so a field added later without a reset fails the rul'
+              'e; the whole reset is conditional only on `nothing was read`; in the session loop no path leads from one read to the next without clear(), the router '
+              'runs only on the Ok(Some) edge of read, every path from the router (or from a parse error) back to the loop head or out of the loop passes Response::s'
+              'end, the close flag is read before the handler can touch the request, acted on after the send and true only on paths where the Connection value compar'
+              'ed equal to `close` (any other value keeps the session, so the requests that follow are answered), and nothing is spawned inside the loop (one read->s'
+              "end chain per iteration, hence responses in request order). Within each clear() a field's reset runs under no condition other than that the field itse"
+              "lf holds something (no early return on another field's state). Decides these clauses, not non-observability for all request histories.")
 
 # field -> reason it needs no reset
 EXEMPT = {
